@@ -36,4 +36,9 @@ def run(env, res):
 
 
 def replay(env, res, case):
-    flowcheck.replay_case(env, res, case)
+    c = case.get('case', case)
+    if isinstance(c, dict) and c.get('part') == 'backoff':
+        from . import c06_backoff
+        c06_backoff.replay_backoff(env, res, c)
+    else:
+        flowcheck.replay_case(env, res, case)
